@@ -57,8 +57,10 @@ def main():
     # 1. decodable + pinned length
     for ident in tabs.ALL:
         built = 0
-        for r in range(6 if thorough else 2):
-            b = gen.build(tabs, ident, rng, maxcount=rng.choice([1, 2, 3, 5]))
+        bigs = gen.bigcount_builds(tabs, rng, [ident]) if ident in ("1007", "1008", "1029", "1033", "4076_201") else []
+        for r in range((6 if thorough else 2) + len(bigs)):
+            # the last rounds: repeat counters at 99 / 100 / 101 / their field maximum, harmonic layers of every shape
+            b = gen.build(tabs, ident, rng, maxcount=rng.choice([1, 2, 3, 5])) if r < (6 if thorough else 2) else bigs[r - (6 if thorough else 2)]
             if b is None or len(b.payload) > 1023:
                 continue
             built += 1
